@@ -3,8 +3,9 @@
    creation returned; it demands that (a) no operation panics or gets stuck, (b) a creation returns a handle or an
    error, (c) the handle of a new entity differs from the handle of every entity alive at that moment (participants
    included), (d) get_instance_handle keeps returning the handle of the creation.
-   Class 1 = the recorded finding: the violation happens at a creation for which the participant's counter of that
-   kind (counted from the trace) has reached the maximum of its type (u8: 255, u16: 65535). *)
+   There is no known class any more: since b2cf990 an exhausted id counter makes the creation return
+   OutOfResources (the per-participant creation counts are still tracked: they were the signature of the former
+   finding C35-counter-overflow and only document where a failure happened). *)
 From DustDDS Require Export Entity.EntityCorr.
 Open Scope Z_scope.
 
@@ -64,13 +65,13 @@ Definition kill_children (a : h35) (p : Z) : h35 :=
   mkH35 (a_P a) (hkill_if (in_hpart p) (a_T a)) (hkill_if (in_hpart p) (a_PUB a)) (hkill_if (in_hpart p) (a_SUB a))
         (hkill_if (in_hpart p) (a_W a)) (hkill_if (in_hpart p) (a_R a)) (a_C a) (a_cnt a).
 
-(* class of a failure at a creation whose counter (before the creation) is c, n creations requested *)
-Definition cls_at (c n maxv : Z) : N := if maxv <? c + n then 1%N else 0%N.
+(* class of a failure at a creation whose counter (before the creation) is c, n creations requested: none is
+   excused any more *)
+Definition cls_at (c n maxv : Z) : N := 0%N.
 
-(* a successful creation returning h: distinct from everything alive; a duplicate is the known class only when the
-   counter has gone once around *)
+(* a successful creation returning h: distinct from everything alive *)
 Definition chk_new (a : h35) (h : handle) (c maxv : Z) : list N :=
-  if hmem h (all_live a) then [if maxv <? c then 1%N else 0%N] else [].
+  if hmem h (all_live a) then [0%N] else [].
 
 Definition ep_create (a : h35) (sd : side) (g : Z) (r : ret) : h35 * list N :=
   match nthz (a_G sd a) g with
@@ -196,14 +197,10 @@ Fixpoint c35_run (a : h35) (tr : list (wop * ret)) : list N :=
 Definition C35_viol (c : ent_case) : list N := c35_run h35_0 (zip_trace (c_ops c) (c_outs c)).
 Definition C35_model_ok : ent_case -> bool := ent_model_ok.
 Definition C35_oracle_ok (c : ent_case) : bool := is_nil (C35_viol c).
-Definition C35_known (c : ent_case) : N :=
-  match C35_viol c with
-  | [] => 0%N
-  | x :: t => if existsb (N.eqb 0) (x :: t) then 0%N else x
-  end.
+Definition C35_known (c : ent_case) : N := 0%N.
 
 (* the same scenarios on a harness built WITHOUT overflow checks (thorough tier): the model runs in the Release
-   profile; the oracle is the same *)
+   profile (which no longer differs from Debug); the oracle is the same *)
 Definition C35R_model_ok (c : ent_case) : bool := rets_eqb (wrun Release init_world (c_ops c)) (c_outs c).
 Definition C35R_oracle_ok : ent_case -> bool := C35_oracle_ok.
 Definition C35R_known : ent_case -> N := C35_known.
